@@ -5,6 +5,7 @@ package banner
 
 // ---- the three predicates, against the property's wording (C14) ----
 //@ func isHTMLRequest props(C14,C07)
+//@   local r param 0 0
 //@   requires r != nil
 //@   assigns nothing
 //@   ensures[C14:get-accepting-html] r0 <==> (r.Method == "GET" && contains(hget(r.Header, "Accept"), "text/html"))
@@ -12,6 +13,8 @@ package banner
 //@ pure isAttachment(h ref) bool = exists(i, 0, len(values(h, "Content-Disposition")), contains(values(h, "Content-Disposition")[i], "attachment"))
 //@ pure isHTMLType(h ref) bool = exists(i, 0, len(values(h, "Content-Type")), contains(values(h, "Content-Type")[i], "text/html") || contains(values(h, "Content-Type")[i], "application/xhtml+xml"))
 //@ func isFrameableHTMLResponse props(C14,C07)
+//@   local responseHeader param 0 1
+//@   local statusCode param 0 0
 //@   assigns nothing
 //@   ensures[C14:frameable-iff-200-html-not-attachment] r0 <==> (statusCode == 200 && !isAttachment(responseHeader) && isHTMLType(responseHeader))
 //@   loop 1
@@ -22,6 +25,7 @@ package banner
 //@     invariant[C14:no-html-type-so-far] statusCode == 200 && !isAttachment(responseHeader) && forall(i, 0, idx + 1, !(contains(values(responseHeader, "Content-Type")[i], "text/html") || contains(values(responseHeader, "Content-Type")[i], "application/xhtml+xml")))
 
 //@ func isAlreadyFramed props(C14,C07)
+//@   local r param 0 0
 //@   requires r != nil && r.URL != nil
 //@   assigns nothing
 //@   ghost pu *url.URL = nil
@@ -41,6 +45,8 @@ package banner
 // rwHeader[box(w)] == rwHeader[w.wrapped] (stated as a precondition of the methods that pass w on as a ResponseWriter).
 //@ pure sameHeader(h ref, k string) bool = (in(k, h) <==> old(in(k, h))) && h[k] == old(h[k])
 //@ func (*bannerResponseWriter).WriteHeader props(C14,C07)
+//@   local statusCode param 0 0
+//@   local w recv 0 0
 //@   requires w != nil && w.wrapped != nil && w.targetURL != nil && rwHeader[w.wrapped] != nil && (!w.wroteHeader ==> !w.writeBytes) && rwHeader[box(w)] == rwHeader[w.wrapped]
 //@   assigns w.wroteHeader, w.writeBytes, mapof(rwHeaderOf(w.wrapped)), ghost rwStatus, ghost rwWrites
 //@   ghost frameable bool = false
@@ -71,6 +77,8 @@ package banner
 //@   ensures[C14:banner-only-for-unframed-html] bodyWrites == 1 ==> frameable && !w.isAlreadyFramed
 
 //@ func (*bannerResponseWriter).Write props(C14,C07)
+//@   local bs param 0 0
+//@   local w recv 0 0
 //@   requires w != nil && w.wrapped != nil && w.targetURL != nil && rwHeader[w.wrapped] != nil && (!w.wroteHeader ==> !w.writeBytes) && rwHeader[box(w)] == rwHeader[w.wrapped]
 //@   ghost passed int = 0
 //@   ghost implicit int = 0
@@ -88,6 +96,9 @@ package banner
 
 // ---- the frame page (C14): rendered from the fixed template with the requested URL, the configured banner and height ----
 //@ func (*bannerResponseWriter).getBanner props(C14,C07)
+//@   local favIconLink param 0 0
+//@   local templateVals define 0 0 & struct { TargetURL string Banner string BannerHeight string FavIconLink string } { TargetURL : _ . targetURL . String …#49ad110a
+//@   local w recv 0 0
 //@   requires w != nil && w.targetURL != nil
 //@   assigns nothing
 //@   ghost ustr string
@@ -105,6 +116,12 @@ package banner
 
 // ---- the handler (C14): non-HTML requests get the original writer; HTML requests get a banner writer around it ----
 //@ func Proxy$1 props(C14,C07)
+//@   local bannerHTML param 1 2
+//@   local bannerHeight param 1 3
+//@   local favIconURL param 1 4
+//@   local r param 0 1
+//@   local w param 0 0
+//@   local wrapped param 1 1
 //@   at if !isHTMLRequest(r)
 //@   requires r != nil && r.URL != nil && wrapped != nil && w != nil
 //@   ghost served int = 0
